@@ -150,6 +150,16 @@ class TocFetcher:
         logger.debug('[%d]: Done!', self.port)
         self.finished_callback()
 
+    def _is_cached_toc_usable(self, cache_data):
+        """The cache is keyed on the CRC only, a hit is usable only if it holds
+        elements of the kind that is being fetched"""
+        try:
+            return all(isinstance(element, self.element_class)
+                       for group in cache_data.values()
+                       for element in group.values())
+        except AttributeError:
+            return False
+
     def _new_packet_cb(self, packet):
         """Handle a newly arrived packet"""
         chan = packet.channel
@@ -168,7 +178,7 @@ class TocFetcher:
                          self.port, self.nbr_of_items, self._crc)
 
             cache_data = self._toc_cache.fetch(self._crc)
-            if (cache_data):
+            if (cache_data and self._is_cached_toc_usable(cache_data)):
                 self.toc.toc = cache_data
                 logger.info('TOC for port [%s] found in cache' % self.port)
                 self._toc_fetch_finished()
